@@ -15,7 +15,7 @@ RULE = ("kernel states drawn from a grammar: 0-30 sockets over /proc/net/{tcp,tc
         "zero, loopback, v4-mapped, link-local, all-ones, random; ports {0,1,22,80,443,65535,random}; all 11 TCP states; inode 0 "
         "TIME_WAIT lines; UNIX stream/dgram/seqpacket, unbound / path / path with blanks, tabs, trailing blank / @abstract / "
         "UTF-8 / undecodable bytes / leading, trailing, repeated blanks and tabs / CR, \\x1c-\\x1f, VT, FF, NBSP, NEL, LINE SEPARATOR / LF (outside the theorems, model only)), 1-4 processes (visible or EACCES fd directory) holding each socket through "
-        "0-3 descriptors shared between processes (TCP/UDP and UNIX), closed and non-socket descriptors, absent IPv6 files, little- and big-endian "
+        "0-3 descriptors shared between processes (TCP/UDP and UNIX), closed and non-socket descriptors, absent IPv6 files, table files that exist but are 0 bytes / header without newline / lone newline (alone and next to well-formed tables), little- and big-endian "
         "decoding; every state is queried system-wide with all 11 kinds + junk kinds and per process; plus address-only cases "
         "(every byte value at every address position in the exhaustive part), hosts without IPv6 (inet_ntop failing, supports_ipv6() "
         "True/False), a malformed stream (mutated lines, odd links) and targeted malformed inputs (TCP/UDP line of 0-9 / exactly 10 fields, "
@@ -165,6 +165,8 @@ def _upaths(st):
 
 
 def _cls(st, le):
+    if st.get("deg"):
+        return "state-empty-table" if "empty" in st["deg"].values() else "state-degenerate-table"
     if any(b"\n" in p for p in _upaths(st)):
         return "state-unix-lf-name"
     if any(p in ODD_PATHS for p in _upaths(st)):
@@ -391,6 +393,19 @@ def gen_cases(rng, tier):
         c = _mk_state_case(rng, _all_classes_state())
         c["sel"] = [[0, list(KINDS)]]
         cases.append(_with_oracle(c, *o))
+    # degenerate table files: each file x each form alone (other tables well-formed), and everything at once
+    for name in TABLE_OF_FILE:
+        for d in ("empty", "hdr", "nl"):
+            st = _all_classes_state()
+            st[TABLE_OF_FILE[name]] = []
+            st["deg"] = {name: d}
+            c = _mk_state_case(rng, st)
+            c["sel"] = [[0, ["all", "inet", "unix", TABLE_OF_FILE[name] if name != "unix" else "unix"]]]
+            cases.append(c)
+    for d in ("empty", "hdr", "nl"):
+        st = {"tcp4": [], "tcp6": [], "udp4": [], "udp6": [], "unix": [], "procs": _all_classes_state()["procs"],
+              "deg": {n: d for n in TABLE_OF_FILE}}
+        cases.append(_mk_state_case(rng, st))
     for which in MALFORMED:
         for _ in range({"quick": 6, "thorough": 60, "search": 6}[tier]):
             cases.append(_malformed_case(rng, which))
@@ -420,6 +435,8 @@ def gen_cases(rng, tier):
         big = rng.random() < 0.04
         size = [5, 8, 6] if big else [0, 0, 1, 1, 2, 3]
         st = _state(rng, size, flavour)
+        if rng.random() < 0.15:
+            _degenerate(rng, st, p=0.7)
         c = _mk_state_case(rng, st, le=rng.random() < 0.85, all_kinds=not big)
         r = rng.random()
         if r < 0.10:
@@ -528,6 +545,30 @@ def _oracle_term(case):
     return "(Build_ipv6_oracle %s %s)" % (G.bo(o[0]), G.bo(o[1]))
 
 
+DEG = {"empty": "DEmpty", "hdr": "DHeaderNoNl", "nl": "DNewline"}
+TABLE_OF_FILE = {"tcp": "tcp4", "tcp6": "tcp6", "udp": "udp4", "udp6": "udp6", "unix": "unix"}
+
+
+def _deg_term(case):
+    """file name -> degenerate form (a table file that exists but is 0 bytes / header without newline / lone newline)."""
+    t = "None"
+    for name, d in sorted((case.get("deg") or {}).items()):
+        t = "if beqb n %s then Some %s else %s" % (G.by(name), DEG[d], t)
+    return "(fun n => %s)" % t
+
+
+def _degenerate(rng, st, p=1.0, only=None):
+    """Give some of the socket-less tables of st a degenerate file."""
+    deg = {}
+    for name, tab in TABLE_OF_FILE.items():
+        if only is not None and name not in only:
+            continue
+        if st[tab] == [] and rng.random() < p:
+            deg[name] = rng.choice(["empty", "empty", "hdr", "nl"])
+    st["deg"] = deg
+    return st
+
+
 def coq_term(case):
     k = case["kind"]
     if k == "state":
@@ -537,10 +578,10 @@ def coq_term(case):
                 return "None"
             t = G.lst([_isock_term(s, i, wide) for i, s in enumerate(v)])
             return "(Some %s)" % t if name.endswith("6") else t
-        return "run_state %s %s %s (Build_kstate %s %s %s %s %s %s) %s %s" % (
+        return "run_state %s %s %s (Build_kstate %s %s %s %s %s %s %s) %s %s" % (
             VARIANT, G.bo(case["le"]), _oracle_term(case), tbl("tcp4", False), tbl("tcp6", False), tbl("udp4", True),
             tbl("udp6", True), G.lst([_usock_term(u) for u in case["unix"]]), G.lst([_kproc_term(p) for p in case["procs"]]),
-            _kinds_term(case["kinds"]), _sel_term(case["sel"]))
+            _deg_term(case), _kinds_term(case["kinds"]), _sel_term(case["sel"]))
     if k == "raw":
         fs = G.lst(["(%s, %s)" % (G.by(n), G.by(bytes.fromhex(h))) for n, h in sorted(case["files"].items())])
         procs = []
